@@ -24,7 +24,7 @@ def lemmas(tier):
     add("map", [("k0", B), ("k1", B), ("v0", B), ("v1", B)], "V.map_labels(k0, k1, v0, v1)", [], "generate_for_map: label = key label and value label")
     add("or", [("l0", B), ("l1", B), ("l2", B), ("with_null", B)], "V.or_labels(l0, l1, l2, with_null)", [], "generate_for_or: each alternative keeps its label; null (True) iff the union admits null")
     add("struct", [("l0", B), ("l1", B), ("l2", B), ("opt_b", B), ("opt_c", B)], "V.struct_labels(l0, l1, l2, opt_b, opt_c)", [], "generate_for_reference(structure): own + extended + mixed-in members, optional ones may be absent, label = conjunction of the members present")
-    add("literal", [("l0", B), ("l1", B)], "V.literal_labels(l0, l1)", [], "generate_for_literal: label = conjunction of member labels")
+    add("literal", [("l0", B), ("l1", B), ("l2", B), ("opt0", B), ("opt1", B), ("opt2", B)], "V.literal_labels(l0, l1, l2, opt0, opt1, opt2)", [], "generate_for_literal: members keep their own values, required ones present, label = conjunction of the members present (any subset optional)")
     add("and", [("l0", B), ("l1", B)], "V.and_labels(l0, l1)", [], "generate_for_and: merged object, label = conjunction")
     add("enum", [("base", "int"), ("custom", "int")], "V.enum_labels(base, custom)", ["0 <= base < 3", "0 <= custom < 3"], "generate_for_reference(enum): declared value True, custom value True iff supportsCustomValues")
     add("envelope", [("kind", "int"), ("lp", B), ("has_params", B)], "V.envelope_labels(kind, lp, has_params)", ["0 <= kind < 3"], "generate_requests/notifications/responses: label = envelope label and params/result(/error) label, envelope members preserved")
